@@ -17,7 +17,8 @@ EXPLANATION = (
     "state or from initiate(observation), and the state stored and the box reported are the result of that update; "
     "(R07.7) the state -> box conversion reads mean[0,1,3,4] in place and drops the angle exactly when mean[2] == 0. "
     "Equality with the textbook recurrence, SPD-ness and stationarity are numeric and NOT decided. "
-    "(R07.9) initiate / predict / update / distance have no data-dependent shortcut: every linear-algebra step runs exactly once on every path.")
+    "(R07.9) initiate / predict / update / distance have no data-dependent shortcut: every linear-algebra step runs exactly once on every path."
+    ' (R07.10) the measurement a box / point contributes is the same vector of plain coordinates at initiate, update and distance (contradiction rule between the three sites), in the order in which the state -> box conversion reads the state back, with the optional angle defaulting to the constant 0 and all velocities starting at 0; R07.6 also requires that the reported box is the conversion of the updated state with only the confidence written afterwards.')
 NOT_DECIDED = ["equality with the textbook Kalman recurrence for all trajectories (f32 linear algebra)",
                "symmetric positive-definiteness of the covariance", "stationary-object prediction",
                "squared-Mahalanobis value of distance()"]
